@@ -168,8 +168,10 @@ theorem @K@_early (env : Env) (he : Returns env) (hc : C05.Returns env) (a : Asy
 
 set_option maxRecDepth 8000 in
 set_option maxHeartbeats 4000000 in
-theorem @K@_late_fired (env : Env) (he : Returns env) (a : Async) (ha : @K@Cov a) (n m : Nat) (hm : m < loopLen n @K@L @K@Lr) :
-    ∃ F, StreamShape n (execBlock env F { inputs := List.replicate n .item ++ [.release], left := some (m + @K@P), async := a } @RUN@) := by
+/-- a graceful stop that lands inside the loop - in any pass, at any line - still ends the stream with exactly one end marker -/
+theorem @K@_late_fired_graceful (env : Env) (he : Returns env) (a : Async) (ha : @K@Cov a) (hk : a ≠ .kill) (n m : Nat)
+    (hm : m < loopLen n @K@L @K@Lr) :
+    ∃ F, StreamEnds n (execBlock env F { inputs := List.replicate n .item ++ [.release], left := some (m + @K@P), async := a } @RUN@) := by
   obtain ⟨F, hF40, hF⟩ := @K@_loop_disturbed env he a ha n
   have hW : @K@W = .whileS _ _ _ := rfl
   have hrule := loop_fire_rule env a n @K@L @K@Lr F @K@W @K@Extra hF
@@ -184,14 +186,55 @@ theorem @K@_late_fired (env : Env) (he : Returns env) (a : Async) (ha : @K@Cov a
   unfold @K@P
   rcases ha with @RC@
   all_goals
-    (simp [@RUN@, @K@Extra, firedOut, firedReq, firedCtrl, exec_line, exec_ret, exec_brk, exec_call, exec_ifS, exec_tryS, execBlock, execHandlers,
-       lineEvent, doActs, doAct, evalCond, Catch.catches, hrule, hm, he.ret, he.tn, he.na]
-     generalize hg : loopEx env F _ _ = g
-     obtain ⟨j, hj, hres⟩ := hp _ _ hg rfl rfl ⟨rfl, rfl, rfl⟩ (by unfold @K@Extra; first | rfl | trivial)
-     simp only [List.nil_append] at hres
-     first
-       | exact ⟨by simp, j, hj, Or.inr ⟨_, by rw [hres]⟩⟩
-       | exact ⟨by simp, j, hj, Or.inl hres⟩)
+    first
+    | exact absurd rfl hk
+    | (simp [@RUN@, @K@Extra, firedOut, firedReq, firedCtrl, exec_line, exec_ret, exec_brk, exec_call, exec_ifS, exec_tryS, execBlock, execHandlers,
+         lineEvent, doActs, doAct, evalCond, Catch.catches, hrule, hm, he.ret, he.tn, he.na]
+       generalize hg : loopEx env F _ _ = g
+       obtain ⟨j, hj, hres⟩ := hp _ _ hg rfl rfl ⟨rfl, rfl, rfl⟩ (by unfold @K@Extra; first | rfl | trivial)
+       simp only [List.nil_append] at hres
+       exact ⟨by simp, j, hj, _, by rw [hres]⟩)
+
+set_option maxRecDepth 8000 in
+set_option maxHeartbeats 4000000 in
+theorem @K@_late_fired_kill (env : Env) (he : Returns env) (n m : Nat) (hm : m < loopLen n @K@L @K@Lr) :
+    ∃ F, StreamShape n (execBlock env F { inputs := List.replicate n .item ++ [.release], left := some (m + @K@P), async := .kill } @RUN@) := by
+  obtain ⟨F, hF40, hF⟩ := @K@_loop_disturbed env he .kill (by simp [@K@Cov]) n
+  have hW : @K@W = .whileS _ _ _ := rfl
+  have hrule := loop_fire_rule env .kill n @K@L @K@Lr F @K@W @K@Extra hF
+  have hpre := loop_fire_prefix env .kill n @K@L @K@Lr F @K@W @K@Extra hF
+  rw [hW] at hrule hpre
+  have hp : ∀ (g st : St), loopEx env F st (.whileS (lnOf @K@W) (condOf @K@W) (bodyOf @K@W)) = g →
+      st.inputs = List.replicate n .item ++ [.release] → st.left = some m → QuietC .kill st → @K@Extra st →
+      ∃ j, j ≤ n ∧ g.results = st.results ++ itemsFrom st.counter j := by
+    intro g st h hi hl hq hx; rw [← h]; exact hpre st m hi hl hm hq hx
+  clear hpre hF
+  refine ⟨F + 90, ?_⟩
+  unfold @K@P
+  simp [@RUN@, @K@Extra, firedOut, firedReq, firedCtrl, exec_line, exec_ret, exec_brk, exec_call, exec_ifS, exec_tryS, execBlock, execHandlers,
+    lineEvent, doActs, doAct, evalCond, Catch.catches, hrule, hm, he.ret, he.tn, he.na]
+  generalize hg : loopEx env F _ _ = g
+  obtain ⟨j, hj, hres⟩ := hp _ _ hg rfl rfl ⟨rfl, rfl, rfl⟩ (by unfold @K@Extra; first | rfl | trivial)
+  simp only [List.nil_append] at hres
+  first
+    | exact ⟨by simp, j, hj, Or.inl hres⟩
+    | exact ⟨by simp, j, hj, Or.inr ⟨_, by rw [hres]⟩⟩
+
+theorem @K@_late_fired (env : Env) (he : Returns env) (a : Async) (ha : @K@Cov a) (n m : Nat) (hm : m < loopLen n @K@L @K@Lr) :
+    ∃ F, StreamShape n (execBlock env F { inputs := List.replicate n .item ++ [.release], left := some (m + @K@P), async := a } @RUN@) := by
+  by_cases hk : a = .kill
+  · subst hk; exact @K@_late_fired_kill env he n m hm
+  · obtain ⟨F, h⟩ := @K@_late_fired_graceful env he a ha hk n m hm
+    exact ⟨F, h.shape⟩
+
+/-- a graceful stop landing inside the loop, for every fuel from some point on -/
+theorem @K@_ends_in_loop (env : Env) (he : Returns env) (a : Async) (ha : @K@Cov a) (hk : a ≠ .kill) (n K : Nat)
+    (h1 : @K@P ≤ K) (h2 : K < @K@P + loopLen n @K@L @K@Lr) :
+    ∃ F0, ∀ F, F0 ≤ F →
+      StreamEnds n (execBlock env F { inputs := List.replicate n .item ++ [.release], left := some K, async := a } @RUN@) := by
+  obtain ⟨m, rfl⟩ : ∃ m, K = m + @K@P := ⟨K - @K@P, by omega⟩
+  obtain ⟨F, h⟩ := @K@_late_fired_graceful env he a ha hk n m (by omega)
+  exact ⟨F, streamEnds_mono env _ _ n F h⟩
 
 @PASSED@
 @WHOLETHM@
